@@ -366,6 +366,30 @@ def probe_append(it, pr, ctx, case, flags):
         return
     flags.add("append:" + scen)
     ch = it.handle(cand)
+    if pr.get("via") == "extend" and expect == "refuse":
+        # extend([acceptable..., unacceptable]): the whole call is refused, nothing of it is linked
+        goods = [g for g in it.alive(tkind, lambda e: e.block() is blk) if g.id not in before][:2]
+        if goods:
+            flags.add("extend:acceptable-items-before-the-refused-one")
+        try:
+            lst.extend([it.handle(g) for g in goods] + [ch])
+            status = "ok"
+        except Exception as exc:  # noqa
+            status = type(exc).__name__
+        after = [x.id for x in getattr(it.handle(owner), role)]
+        if status == "ok":
+            ctx.violation("C05/extend/%s/accepted/%s.%s" % (scen, owner.kind, role), case,
+                          {"candidate": cand.path(), "owner": owner.path()})
+        if after != before:
+            ctx.violation("C05/extend/%s/refused-but-changed/%s.%s" % (scen, owner.kind, role), case,
+                          {"before": before, "after": after, "raised": status})
+            for x in after:
+                if x not in before:
+                    try:
+                        del getattr(it.handle(owner), role)[x]
+                    except Exception:  # noqa
+                        pass
+        return
     try:
         lst.append(ch)
         status = "ok"
@@ -402,7 +426,81 @@ def probe_append(it, pr, ctx, case, flags):
                           {"before": before, "after": after})
 
 
-PROBES = {"alias": probe_alias, "dimlink": probe_dimlink, "append": probe_append}
+def probe_relink(it, pr, ctx, case, flags):
+    """
+    A link slot / list that holds entity X is given X' instead, where X' is an id-preserving copy of X (same id,
+    other name and, after one edit, other content): afterwards the link denotes X', the entity that was given -
+    an alias is an alias of the entity linked last, not of 'whatever has that id'.  Last probe of a case (the
+    copy is unknown to the skeleton).
+    """
+    slot = pr["slot"]
+    n = pr["n"]
+    if slot == "metadata":
+        e = it.pick(["block", "array", "group", "tag", "mtag", "source"][pr["k"] % 6], pr["t"],
+                    lambda x: x.single.get("metadata") not in (None, "dangling"))
+        if e is None:
+            return
+        x = e.single["metadata"]
+        cp = it.f.copy_section(it.handle(x), name="c05-copy-%d" % n)
+        cp.definition = "the copy"
+        assign = lambda: setattr(it.handle(e), "metadata", it.f.sections["c05-copy-%d" % n])  # noqa: E731
+        read = lambda: it.handle(e).metadata  # noqa: E731
+        probe_attr = "definition"
+    elif slot in ("extents", "positions"):
+        e = it.pick("mtag", pr["t"], lambda x: x.single.get(slot) not in (None, "dangling"))
+        if e is None:
+            return
+        x = e.single[slot]
+        bh = it.handle(e.parent)
+        cp = bh.create_data_array(name="c05-copy-%d" % n, copy_from=it.handle(x))
+        cp.label = "the copy"
+        assign = lambda: setattr(it.handle(e), slot, bh.data_arrays["c05-copy-%d" % n])  # noqa: E731
+        read = lambda: getattr(it.handle(e), slot)  # noqa: E731
+        probe_attr = "label"
+    else:   # a reference list: X out, X' in
+        e = it.pick(["tag", "mtag", "group"][pr["k"] % 3], pr["t"],
+                    lambda y: y.links.get("references" if y.kind != "group" else "data_arrays"))
+        if e is None:
+            return
+        role = "references" if e.kind != "group" else "data_arrays"
+        x = e.links[role][pr["t"] % len(e.links[role])]
+        bh = it.handle(e.parent)
+        cp = bh.create_data_array(name="c05-copy-%d" % n, copy_from=it.handle(x))
+        cp.label = "the copy"
+
+        def assign():
+            lst = getattr(it.handle(e), role)
+            lst.append(bh.data_arrays["c05-copy-%d" % n])
+
+        read = lambda: [m for m in getattr(it.handle(e), role) if m.name == "c05-copy-%d" % n][0]  # noqa: E731
+        probe_attr = "label"
+        slot = "list:" + role
+    if cp.id != x.id:
+        ctx.count("relink:copy-did-not-keep-id")
+        return
+    flags.add("relink-to-id-preserving-copy:" + slot.split(":")[0])
+    flags.add("nontrivial")
+    key = "C05/relink-to-copy/%s/%s" % (e.kind, slot)
+    try:
+        assign()
+    except Exception as exc:  # noqa
+        ctx.count("relink-refused:" + type(exc).__name__)
+        return
+    for when in ("in-session", "after-reopen"):
+        if when == "after-reopen":
+            it.reopen("a")
+        try:
+            got = read()
+            seen = (got.name, getattr(got, probe_attr))
+        except Exception as exc:  # noqa
+            ctx.violation(key + "/not-reachable", case, {"when": when, "raised": type(exc).__name__})
+            continue
+        if seen != ("c05-copy-%d" % n, "the copy"):
+            ctx.violation(key + "/link-denotes-the-old-entity", case,
+                          {"when": when, "want": ["c05-copy-%d" % n, "the copy"], "got": list(seen)})
+
+
+PROBES = {"alias": probe_alias, "dimlink": probe_dimlink, "append": probe_append, "relink": probe_relink}
 
 
 def run_case(case, ctx):
@@ -414,7 +512,7 @@ def run_case(case, ctx):
     try:
         for op in ops.rich_prefix() + case.get("build", []):
             it.step(op)
-        for pr in case["probes"]:
+        for pr in list(case["probes"]) + ([case["final"]] if case.get("final") else []):
             try:
                 PROBES[pr["probe"]](it, pr, ctx, case, flags)
             except Exception as exc:  # harness trouble inside a probe is not a violation
@@ -456,7 +554,7 @@ def probe_strategy():
         d["index"] = [-1 if i == ax else draw(st.integers(0, s - 1)) for i, s in enumerate(sh)]
         return d
     append = st.fixed_dictionaries({"probe": st.just("append"), "k": st.sampled_from(sorted(LINK_ROLES)), "t": I,
-                                    "role": st.integers(0, 9), "c": I,
+                                    "role": st.integers(0, 9), "c": I, "via": st.sampled_from(["append", "append", "extend"]),
                                     "scenario": st.sampled_from(["same-block", "nested-source", "wrong-kind",
                                                                  "other-block-different-name", "other-block-same-name",
                                                                  "other-block-same-name"])})
@@ -466,11 +564,14 @@ def probe_strategy():
 def case_strategy():
     return st.fixed_dictionaries({
         "build": ops.program(BUILD, min_size=0, max_size=10, name_pool=["sig", "src", "g1", "tag", "time"]),
-        "probes": st.lists(probe_strategy(), min_size=1, max_size=8)})
+        "probes": st.lists(probe_strategy(), min_size=1, max_size=8),
+        "final": st.one_of(st.none(), st.fixed_dictionaries({
+            "probe": st.just("relink"), "slot": st.sampled_from(["metadata", "extents", "positions", "list"]),
+            "k": ops.IDX, "t": ops.IDX, "n": st.integers(0, 99)}))})
 
 
 def shards(tier, seed):
-    n, per = (16, 8) if tier == "quick" else (64, 80)
+    n, per = (16, 14) if tier == "quick" else (64, 80)
     return [{"n": per, "seed": seed * 1000 + i} for i in range(n)]
 
 
